@@ -188,6 +188,104 @@ class LinkedGen:
             out.append(rng.choice(["drop", "drop_cb"]) + f" o={k}")
         return out
 
+    def indexed_probe(self, rng, sim, k, near=None):
+        """one indexed operation (get_at / replace_at / remove_at / add_at) on slot k, by preference in the
+        middle of the list or near a given earlier index"""
+        l = sim.s[k]
+        n = len(l)
+        o = f" o={k}" if k else ""
+        if near is not None and rng.random() < 0.8:
+            i = max(0, near + rng.choice([-1, 0, 0, 0, 1]))
+        elif n and rng.random() < 0.7:
+            i = rng.choice([n // 2, n // 2, max(n // 2 - 1, 0), min(n // 2 + 1, n - 1), n - 1, 0])
+        else:
+            i = self.idx_choice(rng, n)
+        c = rng.choice(["get_at", "get_at", "replace_at", "remove_at", "add_at"])
+        if c == "get_at":
+            return f"get_at idx={i}{o}", i
+        if c == "remove_at":
+            if i < n:
+                del l[i]
+            return f"remove_at idx={i}{o}", i
+        v = val(rng)
+        if c == "replace_at":
+            if i < n:
+                l[i] = v
+            return f"replace_at {v} idx={i}{o}", i
+        if i < n:
+            l.insert(i, v)
+        return f"add_at {v} idx={i}{o}", i
+
+    def two_list_program(self, rng, sim):
+        """Two-list programs around the bulk operations (C04): indexed operations on BOTH lists directly
+        before and after every add_all / add_all_at / splice / splice_at; the emptied source of a splice
+        stays in use (refilled, indexed near the index looked up before the splice, spliced back); chains
+        A->B then B->A.  Aimed at state that an indexed lookup leaves behind in a list (cursor caches, stale
+        head/tail) and that a bulk operation must invalidate in the *source* as well."""
+        out = []
+        live = sim.live()
+        while len(live) < 2:
+            k = sim.free_slot()
+            sim.s[k] = []
+            ctor = sim.ctor_for(k)
+            out.append(f"{ctor} o={k}" if k else ctor)
+            live = sim.live()
+        a, b = rng.sample(live, 2)
+        for k in (a, b):
+            target = rng.randint(3, 8)
+            while len(sim.s[k]) < target and rng.random() < 0.9:
+                v = val(rng)
+                sim.s[k].append(v)
+                out.append(f"add {v}" + (f" o={k}" if k else ""))
+        last = {a: None, b: None}
+        for rnd in range(rng.randint(1, 4)):
+            # indexed operations on both lists before the bulk operation
+            for k in rng.sample([a, b, b], rng.randint(1, 3)):
+                op, i = self.indexed_probe(rng, sim, k, last[k] if rng.random() < 0.5 else None)
+                last[k] = i
+                out.append(op)
+            la, lb = sim.s[a], sim.s[b]
+            kinds = ["add_all", "add_all_at"] if sim.mix else ["splice", "splice", "splice_at", "splice_at", "add_all", "add_all_at"]
+            c = rng.choice(kinds)
+            o = f" o={a}" if a else ""
+            if c.endswith("_at"):
+                i = rng.choice([0, len(la) // 2, max(len(la) - 1, 0), len(la)]) if rng.random() < 0.85 else self.idx_choice(rng, len(la))
+                ok = lb and (i <= len(la) if self.dbl else i < len(la))
+                if ok:
+                    la[i:i] = list(lb)
+                    if c == "splice_at":
+                        del lb[:]
+                out.append(f"{c} from={b} idx={i}{o}")
+            else:
+                la.extend(lb)
+                if c == "splice":
+                    del lb[:]
+                out.append(f"{c} from={b}{o}")
+            # indexed operations on both lists directly afterwards
+            for k in rng.sample([a, b], rng.randint(0, 2)):
+                op, i = self.indexed_probe(rng, sim, k, last[k])
+                out.append(op)
+            # keep using the (possibly emptied) source: refill it, index into it near the old index
+            if rng.random() < 0.85:
+                ob = f" o={b}" if b else ""
+                for _ in range(rng.randint(2, 7)):
+                    v = val(rng)
+                    cadd = rng.choice(["add", "add", "add_last", "add_first"])
+                    if cadd == "add_first":
+                        sim.s[b].insert(0, v)
+                    else:
+                        sim.s[b].append(v)
+                    out.append(f"{cadd} {v}{ob}")
+                for _ in range(rng.randint(1, 3)):
+                    op, i = self.indexed_probe(rng, sim, b, last[b])
+                    out.append(op)
+                if rng.random() < 0.3:
+                    out.append(rng.choice(["get_first", "get_last", "size", "foreach"]) + ob)
+            # chains: the next round goes the other way (A->B then B->A) most of the time
+            if rng.random() < 0.7:
+                a, b = b, a
+        return out
+
     def iter_program(self, rng, sim, k):
         l = sim.s[k]
         o = f" o={k}" if k else ""
@@ -344,6 +442,13 @@ class LinkedGen:
                 v = val(rng); sim.s[1].append(v); ops.append(f"add {v} o=1")
         length = rng.randint(1, 50)
         allf = focus in ("all", "refuse")
+        if (focus is None or allf) and rng.random() < 0.12:
+            # a history that consists of two-list programs around the bulk operations
+            for _ in range(rng.randint(1, 3)):
+                ops.extend(self.two_list_program(rng, sim))
+                for _ in range(rng.randint(0, 3)):
+                    ops.append(self.core_op(rng, sim, rng.choice(sim.live())))
+            length = rng.randint(0, 6)
         for _ in range(length):
             live = sim.live()
             if not live:
@@ -362,6 +467,8 @@ class LinkedGen:
                 new = self.sort_op(rng, sim, k)
             elif self.dbl and allf and r < 0.31:
                 new = [f"reduce" + (f" o={k}" if k else "")]
+            elif r > 0.93 and (focus is None or allf):
+                new = self.two_list_program(rng, sim)
             elif r > 0.86 and focus != "growth":
                 new = self.bulk_op(rng, sim, reject=(focus == "reject"))
             elif focus == "fault":
@@ -419,6 +526,30 @@ class LinkedGen:
                         for c in ("add_all_at", "splice_at"):
                             out.append(build(A) + build(B, 1) + [f"{c} from=1 idx={i}", "add_first 9", "add 8", "add 7 o=1", "remove_last",
                                                                  "remove_first o=1", "drop o=1", "reverse", "destroy"])
+            # (b2) indexed operation in the middle of the source, bulk operation, refill the source, indexed
+            # operation on the source near the old index (and on the destination); then the way back
+            pre_ops = lambda i, k: [f"get_at idx={i}", f"replace_at 77 idx={i}", f"remove_at idx={i}", f"add_at 77 idx={i}"] if not k else \
+                                   [f"get_at idx={i} o={k}", f"replace_at 77 idx={i} o={k}", f"remove_at idx={i} o={k}", f"add_at 77 idx={i} o={k}"]
+            refill = [f"add {v} o=1" for v in (31, 32, 33, 34, 35, 36)]
+            for nb in (4, 6):
+                A = [11, 12, 13]
+                B = [21, 22, 23, 24, 25, 26][:nb]
+                i = nb // 2
+                for pre in pre_ops(i, 1):
+                    for bulk in ("splice from=1", "splice_at from=1 idx=1", "add_all from=1", "add_all_at from=1 idx=1"):
+                        for j in (i - 1, i, i + 1):
+                            for post in pre_ops(j, 1):
+                                out.append(build(A) + build(B, 1) + ["get_at idx=1", pre, bulk, "get_at idx=2"] + refill +
+                                           [post, f"get_at idx={j} o=1", "get_at idx=1", "get_first o=1", "get_last o=1",
+                                            "splice from=0 o=1", "get_at idx=2 o=1", "add 41", "add 42", "get_at idx=1", "destroy"])
+            # chains: A->B then B->A with indexed operations on both lists around every step
+            for c1 in ("splice from=1", "splice_at from=1 idx=1"):
+                for c2 in ("splice from=0 o=1", "splice_at from=0 idx=0 o=1", "add_all from=0 o=1"):
+                    for p in ("get_at", "remove_at", "replace_at 77", "add_at 77"):
+                        out.append(build([11, 12, 13, 14]) + build([21, 22, 23, 24, 25], 1) +
+                                   [f"{p} idx=2", f"{p} idx=2 o=1", c1, f"{p} idx=3", "add 31 o=1", "add 32 o=1", "add 33 o=1", "add 34 o=1",
+                                    f"{p} idx=2 o=1", f"{p} idx=1", c2, f"{p} idx=2 o=1", "add 51", "add 52", "add 53", f"{p} idx=2", f"{p} idx=1",
+                                    "get_at idx=0", "get_at idx=0 o=1", "destroy"])
             # (c) all short histories over a small alphabet
             alpha = ["add_first 1", "add_last 2", "add_at 3 idx=1", "remove_at idx=1", "remove_first", "remove_last", "remove 2", "reverse"]
             L = 4 if quick else 5
